@@ -175,6 +175,20 @@ func isIfaceIdx(t int) bool { return injTypes[t].Kind() == reflect.Interface }
 
 // mkVal builds a value of concrete type ty carrying id.
 func mkVal(ty, id int) interface{} {
+	if id == 0 {
+		// id 0 is the ZERO value of the type: for pointers, channels and funcs the typed nil — a perfectly good value to
+		// register (it replaces, shadows and is delivered like any other)
+		switch ty {
+		case tyPS:
+			return (*tS)(nil)
+		case tyChan:
+			return (chan int)(nil)
+		case tyFunc:
+			return (func() int)(nil)
+		case tyPO:
+			return (*tO)(nil)
+		}
+	}
 	switch ty {
 	case tyS:
 		return tS{ID: id}
@@ -1187,10 +1201,14 @@ func (g *injGen) randomInjectSession() {
 				}
 			}
 			g.regd = append(g.regd, ty)
+			vid := g.nextVid()
+			if r.Intn(7) == 0 {
+				vid = 0 // the zero value of the type (a typed nil for pointers, channels, funcs)
+			}
 			if kind == "M" {
-				g.emit("M %d %d %d", sc, ty, g.nextVid())
+				g.emit("M %d %d %d", sc, ty, vid)
 			} else {
-				g.emit("%s %d %d %d %d", kind, sc, ty, cty, g.nextVid())
+				g.emit("%s %d %d %d %d", kind, sc, ty, cty, vid)
 			}
 		case k < 11:
 			g.emit("V %d %d", sc, g.someType(nInjTypes))
